@@ -56,7 +56,9 @@ impl LoopCampaign {
             let i = rng.below(l.mappings.len());
             let mut keys = vec![];
             for _ in 0..rng.below(4) { let k = if rng.chance(1, 2) { rng.pick(OUT_MODS) } else { rng.pick(OUT_ACT) }; if !keys.contains(&k) { keys.push(k); } }
-            l.mappings[i].repeat = Repeat::Special { keys, delay_ms: [0, 1, 50, 130, 180][rng.below(5)], interval_ms: [1, 3, 30, 45][rng.below(4)] };
+            let d0 = [0, 1, 50, 130, 180][rng.below(5)]; let i0 = [1, 3, 30, 45][rng.below(4)];
+            let (d, iv) = long_times(&mut rng, d0, i0);
+            l.mappings[i].repeat = Repeat::Special { keys, delay_ms: d, interval_ms: iv };
           }
           tries += 1;
           match through_loader(&l) { Some(l2) => break (l2, "random".to_string()), None => { if tries > 20 { break (Layout { mappings: vec![] }, "empty-fallback".to_string()); } } }
@@ -70,8 +72,8 @@ impl LoopCampaign {
     // one run in 200 is a marathon (hundreds of events, mostly back to back): counters, capacities
     // and every-N-th-time clean-ups in the loop or the mapper
     let marathon = rng.chance(1, 200);
-    let bursty = bursty || marathon;
-    ho.len = if marathon { if thorough { rng.range(150, 900) } else { rng.range(150, 450) } } else if bursty { if thorough { rng.range(20, 150) } else { rng.range(20, 70) } } else if thorough { rng.range(2, 40) } else { rng.range(2, 18) };
+    let bursty = bursty || marathon || ho.crowd;
+    ho.len = if ho.crowd { ho.len } else if marathon { if thorough { rng.range(150, 900) } else { rng.range(150, 450) } } else if bursty { if thorough { rng.range(20, 150) } else { rng.range(20, 70) } } else if thorough { rng.range(2, 40) } else { rng.range(2, 18) };
     ho.resets = false;
     let mut st = GenStats::default();
     let ops = gen_ops(&mut rng, &layout, &ho, &mut st);
@@ -139,7 +141,9 @@ fn run_b(case: &CaseB, record: Option<u64>) -> Result<Outcome, String> {
 /// errno means): C10's business, not the byte format's.
 fn hybrid_label(en: &EnB, msg: &str) -> Option<&'static str> {
   let driver_only = msg.starts_with("[driver]");
-  if en.c18 && !driver_only { Some("C18-hybrid") } else if en.c10 { Some("C10-hybrid") } else { None }
+  // the real driver not telling the loop about the tablet switch means tablet mode is not entered "immediately"
+  let tablet_missed = msg.starts_with("[driver][tablet]") || msg.starts_with("[driver] [tablet]");
+  if en.c18 && !driver_only { Some("C18-hybrid") } else if en.c10 { Some("C10-hybrid") } else if en.c12 && tablet_missed { Some("C12-hybrid") } else { None }
 }
 
 /// Execute in replay mode and evaluate the enabled projection.
@@ -278,7 +282,7 @@ impl Campaign for LoopCampaign {
       let s = &o.stats;
       acc.fault("signal_interrupts_poll", s.eintr); acc.fault("spurious_timeout_idle", s.spurious_timeout); acc.fault("spurious_readiness", s.spurious_ready);
       acc.fault("io_latency_in_call", s.latency); acc.fault("timer_oversleep", s.oversleep); acc.fault("keyboard_unplugged", s.kbd_unplugged); acc.fault("tablet_switch_unplugged", s.tab_unplugged);
-      acc.fault("io_error_in_driver_call", s.io_error); acc.fault("os_write_eagain_under_real_writer", s.os_write_fault[0]); acc.fault("os_write_epipe_under_real_writer", s.os_write_fault[1]); acc.fault("os_write_ebadf_under_real_writer", s.os_write_fault[2]); acc.fault("os_read_ebadf_under_real_driver", s.os_read_fault); acc.fault("os_read_enodev_unplug_under_real_driver", s.os_enodev);
+      acc.fault("io_error_in_driver_call", s.io_error); acc.fault("os_write_eagain_under_real_writer", s.os_write_fault[0]); acc.fault("os_write_epipe_under_real_writer", s.os_write_fault[1]); acc.fault("os_write_ebadf_under_real_writer", s.os_write_fault[2]); acc.fault("os_read_ebadf_under_real_driver", s.os_read_fault); acc.fault("os_read_enodev_unplug_under_real_driver", s.os_enodev); acc.fault("hangup_on_unplug_cross_checked_against_real_poll", s.hangups_cross_checked);
       acc.probe_n("real_driver_polls_cross_checked", s.real_polls_compared); acc.fault("device_order_flipped", s.order_flipped); acc.fault("arrival_during_drain", s.arrival_during_drain); acc.fault("backoff_sleep", s.backoff_sleeps);
       acc.probe_n("wakeup_with_two_or_more_events", s.multi_event_wakeups); acc.probe_n("both_devices_ready_in_one_wakeup", s.both_devices_ready); acc.probe_n("wakeup_with_sixteen_or_more_events", s.max_events_one_wakeup);
       acc.count("steps", o.trace.len() as u64); acc.count("sim_us", o.sim_us); acc.count("backoff_slept_us", o.slept_us); acc.count("trace_cap_hit", s.trace_cap_hit);
